@@ -227,9 +227,9 @@ def main():
     check_star_tie(ck, dist)
     cases = G.exhaustive_small()
     if ck.quick:
-        cases += G.collections(ck.rng, 1500, 3, 5) + G.collections(ck.rng, 250, 6, 6) + G.long_chain_cases(ck.rng, 28, 7) + G.dense_collections(ck.rng, 800, 4, 5)
+        cases += G.collections(ck.rng, 1500, 3, 5) + G.collections(ck.rng, 250, 6, 6) + G.long_chain_cases(ck.rng, 28, 7) + G.dense_collections(ck.rng, 800, 4, 5) + G.sparse_collections(ck.rng, 500, 4, 6, 9, 18)
     else:
-        cases += G.collections(ck.rng, 12000, 3, 5) + G.collections(ck.rng, 3000, 6, 7) + G.collections(ck.rng, 200, 8, 8) + G.long_chain_cases(ck.rng, 28, 7) + G.long_chain_cases(ck.rng, 12, 8) + G.dense_collections(ck.rng, 8000, 4, 6)
+        cases += G.collections(ck.rng, 12000, 3, 5) + G.collections(ck.rng, 3000, 6, 7) + G.collections(ck.rng, 200, 8, 8) + G.long_chain_cases(ck.rng, 28, 7) + G.long_chain_cases(ck.rng, 12, 8) + G.dense_collections(ck.rng, 8000, 4, 6) + G.sparse_collections(ck.rng, 5000, 4, 6, 9, 18)
     # the constructed family of the known finding is always present
     cases.append(("star", 5, ["XIIII", "ZIIII", "ZZIII", "ZIZII", "ZIIZI", "ZIIIZ", "ZZZZZ"]))
     res = ck.impl("c01", [{"op": "classify", "gens": g} for _, _, g in cases], per_case_s=120)
